@@ -133,5 +133,102 @@ def _uq(a):
     x.data = [a]
     return x
 
+def twists():
+    from spatialmath import Twist2, Twist3
+    a, q, S6, S3, th, k = P('a', (3,)), P('q', (3,)), P('S', (6,)), P('S', (3,)), P('th'), P('k')
+    def tw3(s):
+        x = Twist3(); x.data = [s]; return x
+    def tw2(s):
+        x = Twist2(); x.data = [s]; return x
+    L = [
+        F('Twist3_Revolute', [a, q], lambda a, q: out(Twist3.Revolute(a, q)), 'Twist3.Revolute(a, q)'),
+        F('Twist3_Prismatic', [a], lambda a: out(Twist3.Prismatic(a)), 'Twist3.Prismatic(a)'),
+        F('Twist3_v', [S6], lambda S: tw3(S).v, 'Twist3.v'), F('Twist3_w', [S6], lambda S: tw3(S).w, 'Twist3.w'),
+        F('Twist3_pitch', [S6], lambda S: tw3(S).pitch(), 'Twist3.pitch()'),
+        F('Twist3_pole', [S6], lambda S: tw3(S).pole(), 'Twist3.pole()'),
+        F('Twist3_theta', [S6], lambda S: tw3(S).theta(), 'Twist3.theta()'),
+        F('Twist3_line', [S6], lambda S: out(tw3(S).line()), 'Twist3.line()'),
+        F('Twist3_isprismatic', [S6], lambda S: tw3(S).isprismatic, 'Twist3.isprismatic'),
+        F('Twist3_se3', [S6], lambda S: tw3(S).se3(), 'Twist3.se3()'),
+        F('Twist3_inv', [S6], lambda S: out(tw3(S).inv()), 'Twist3.inv()'),
+        F('Twist3_ad', [S6], lambda S: tw3(S).ad(), 'Twist3.ad()'),
+        F('Twist3_exp', [S6], lambda S: out(tw3(S).exp()), 'Twist3.exp()'),
+        F('Twist3_exp_theta', [S6, th], lambda S, th: out(tw3(S).exp(th)), 'Twist3.exp(theta)'),
+        F('Twist3_mul_scalar', [S6, k], lambda S, k: out(tw3(S) * k), 'Twist3 * scalar'),
+        F('Twist3_rmul_scalar', [S6, k], lambda S, k: out(k * tw3(S)), 'scalar * Twist3'),
+        F('Twist3_unit', [S6], lambda S: out(tw3(S).unit), 'Twist3.unit'),
+        F('Twist2_Revolute', [P('q', (2,))], lambda q: out(Twist2.Revolute(q)), 'Twist2.Revolute(q)'),
+        F('Twist2_Prismatic', [P('a', (2,))], lambda a: out(Twist2.Prismatic(a)), 'Twist2.Prismatic(a)'),
+        F('Twist2_exp_theta', [S3, th], lambda S, th: out(tw2(S).exp(th)), 'Twist2.exp(theta)'),
+        F('Twist2_se2', [S3], lambda S: tw2(S).se2(), 'Twist2.se2()'),
+        F('Twist2_inv', [S3], lambda S: out(tw2(S).inv()), 'Twist2.inv()'),
+        F('Twist2_mul_scalar', [S3, k], lambda S, k: out(tw2(S) * k), 'Twist2 * scalar'),
+        F('Twist2_isprismatic', [S3], lambda S: tw2(S).isprismatic, 'Twist2.isprismatic'),
+    ]
+    return L
+
+def pluckers():
+    from spatialmath.geom3d import Plucker, Plane
+    from spatialmath import SE3
+    p, q, x, d, L6, M6 = P('p', (3,)), P('q', (3,)), P('x', (3,)), P('d', (3,)), P('L', (6,)), P('M', (6,))
+    def pl(v):
+        o = Plucker(); o.data = [v]; return o
+    def se3(T):
+        return SE3(T, check=False)
+    lam = P('lam')
+    L = [
+        F('Plucker_PQ', [p, q], lambda p, q: out(Plucker.PQ(p, q)), 'Plucker.PQ(P, Q)'),
+        F('Plucker_PointDir', [p, d], lambda p, d: out(Plucker.PointDir(p, d)), 'Plucker.PointDir(point, dir)'),
+        F('Plucker_Planes', [P('a', (4,)), P('b', (4,))], lambda a, b: out(Plucker.Planes(a, b)), 'Plucker.Planes(pi1, pi2)'),
+        F('Plucker_pp', [L6], lambda L: pl(L).pp, 'Plucker.pp'),
+        F('Plucker_ppd', [L6], lambda L: pl(L).ppd, 'Plucker.ppd'),
+        F('Plucker_point', [L6, lam], lambda L, lam: pl(L).point(lam), 'Plucker.point(lambda)'),
+        F('Plucker_closest', [L6, x], lambda L, x: tuple(pl(L).closest(x)), 'Plucker.closest(x) -> (p, d, lam)'),
+        F('Plucker_commonperp', [L6, M6], lambda L, M: out(pl(L).commonperp(pl(M))), 'Plucker.commonperp'),
+        F('Plucker_distance', [L6, M6], lambda L, M: pl(L).distance(pl(M)), 'Plucker.distance'),
+        F('Plucker_mul', [L6, M6], lambda L, M: pl(L) * pl(M), 'Plucker * Plucker (reciprocal product)'),
+        F('Plucker_intersect_plane', [L6, P('pi', (4,))], lambda L, pi: tuple(pl(L).intersect_plane(pi)), 'Plucker.intersect_plane -> (p, lam)'),
+        F('SE3_mul_Plucker', [P('T', (4, 4)), L6], lambda T, L: out(se3(T) * pl(L)), 'SE3 * Plucker'),
+        F('Plane_PN', [p, P('n', (3,))], lambda p, n: Plane.PN(p, n).plane, 'Plane.PN(p, n)'),
+        F('Plane_P3', [P('m', (3, 3))], lambda m: Plane.P3(m).plane, 'Plane.P3(3 points as columns)'),
+    ]
+    return L
+
+def spatial():
+    from spatialmath import SE3
+    from spatialmath.spatialvector import SpatialVelocity, SpatialAcceleration, SpatialForce, SpatialMomentum, SpatialInertia
+    a, b_ = P('a', (6,)), P('b', (6,))
+    L = []
+    for cname, cls in (('SVel', SpatialVelocity), ('SAcc', SpatialAcceleration), ('SFor', SpatialForce), ('SMom', SpatialMomentum)):
+        L.append(F(f'{cname}_add', [a, b_], (lambda c: lambda a, b: out(c(a) + c(b)))(cls), f'{cls.__name__} + same class'))
+        L.append(F(f'{cname}_sub', [a, b_], (lambda c: lambda a, b: out(c(a) - c(b)))(cls), f'{cls.__name__} - same class'))
+        L.append(F(f'{cname}_neg', [a], (lambda c: lambda a: out(-c(a)))(cls), f'-{cls.__name__}'))
+        L.append(F(f'SE3_mul_{cname}', [P('T', (4, 4)), a], (lambda c: lambda T, a: out(SE3(T, check=False) * c(a)))(cls), f'SE3 * {cls.__name__}'))
+    L += [
+        F('SVel_cross_SVel', [a, b_], lambda a, b: out(SpatialVelocity(a).cross(SpatialVelocity(b))), 'velocity x motion (crm)'),
+        F('SVel_cross_SFor', [a, b_], lambda a, b: out(SpatialVelocity(a).cross(SpatialForce(b))), 'velocity x* force (crf)'),
+        F('SVel_matmul_SVel', [a, b_], lambda a, b: out(SpatialVelocity(a) @ SpatialVelocity(b)), 'SpatialVelocity @ SpatialVelocity'),
+        F('SIne_ctor', [P('m'), P('c', (3,)), P('I', (3, 3))], lambda m, c, I: out(SpatialInertia(m, c, I)), 'SpatialInertia(m, c, I)'),
+        F('SIne_add', [P('A', (6, 6)), P('B', (6, 6))], lambda A, B: out(SpatialInertia(A) + SpatialInertia(B)), 'SpatialInertia + SpatialInertia'),
+        F('SIne_mul_SAcc', [P('A', (6, 6)), a], lambda A, a: out(SpatialInertia(A) * SpatialAcceleration(a)), 'inertia * acceleration'),
+        F('SIne_mul_SVel', [P('A', (6, 6)), a], lambda A, a: out(SpatialInertia(A) * SpatialVelocity(a)), 'inertia * velocity'),
+    ]
+    return L
+
+def dualq():
+    from spatialmath import Quaternion, UnitQuaternion, SE3
+    from spatialmath.DualQuaternion import DualQuaternion, UnitDualQuaternion
+    r, d, r2, d2 = P('r', (4,)), P('d', (4,)), P('s', (4,)), P('e', (4,))
+    def dq(r, d): return DualQuaternion(Quaternion(r), Quaternion(d))
+    def dout(x): return np.r_[x.real.vec, x.dual.vec]
+    return [
+        F('DQ_mul', [r, d, r2, d2], lambda r, d, s, e: dout(dq(r, d) * dq(s, e)), 'DualQuaternion * DualQuaternion'),
+        F('DQ_add', [r, d, r2, d2], lambda r, d, s, e: dout(dq(r, d) + dq(s, e)), 'DualQuaternion + DualQuaternion'),
+        F('DQ_conj', [r, d], lambda r, d: dout(dq(r, d).conj()), 'DualQuaternion.conj()'),
+        F('DQ_matrix', [r, d], lambda r, d: dq(r, d).matrix(), 'DualQuaternion.matrix()'),
+        F('DQ_norm', [r, d], lambda r, d: tuple(dq(r, d).norm()), 'DualQuaternion.norm()'),
+        F('UDQ_mul_point', [r, d, P('p', (3,))], lambda r, d, p: UnitDualQuaternion(_uq(r), Quaternion(d)) * p, 'UnitDualQuaternion * point'),
+    ]
+
 def groups():
-    return {'Poses': poses(), 'Quats': quats()}
+    return {'Poses': poses(), 'Quats': quats(), 'Twists': twists(), 'Plucker': pluckers(), 'Spatial': spatial(), 'DualQuat': dualq()}
